@@ -39,6 +39,23 @@ fn rep_of<M: Model, R: Conv<M::F>>(ctx: &Ctx<M, R>, p: &OP<R::El>, kind: u32, rn
             rep.class("representation: Z = 1");
             ctx.proj(p, &M::F::one())
         },
+        2 => {
+            // the checked constructors (they normalise their input; the point must come back as the same point
+            // with consistent hidden coordinates); refused for points outside the subgroup, then the plain one
+            let l = if rng.next_u32() % 3 == 0 { M::F::one() } else { lam::<M::F>(rng) };
+            // (one time in four: the constructor runs a subgroup test, and a refusal is a caught panic)
+            let tried = if rng.next_u32() % 4 == 0 { ctx.proj_checked(p, &l) } else { None };
+            match tried {
+                Some(g) => {
+                    rep.class("representation: checked constructor (Projective::new with Z != 1 / Affine::new)");
+                    g
+                },
+                None => {
+                    rep.class("representation: Z != 1 (random rescaling)");
+                    ctx.proj(p, &l)
+                },
+            }
+        },
         _ => {
             rep.class("representation: Z != 1 (random rescaling)");
             ctx.proj(p, &lam::<M::F>(rng))
@@ -359,6 +376,7 @@ const REQUIRED_TOY: &[&str] = &[
     "pair: 2-torsion point (y = 0) as first operand",
     "pair: doubling gives the identity",
     "representation: non-canonical identity",
+    "representation: checked constructor (Projective::new with Z != 1 / Affine::new)",
     "representation: Z != 1 (random rescaling)",
     "representation: Z = 1",
     "curve: short Weierstrass, a = 0",
